@@ -36,16 +36,18 @@ CLAIMS = {
                      "feedback), transcribed from the standard via lib/whatwg_tok.py and independent of html5ever and of the tables; "
                      "C01_whatwg_cross_check evaluates it against the interpreter on the regenerated table on 33 nasty inputs "
                      "inside Coq (a test by computation). Stage B, the refinement THEOREM for the text states "
-                     "(TokIR/WhatwgRefine.v + Inst/InstWhatwgRefine.v, C01_refines_whatwg_text_states_partial): for every input, "
+                     "(TokIR/WhatwgRefine.v + Inst/InstWhatwgRefine.v, C01_refines_whatwg_text_and_attributeless_tags_partial): for every input, "
                      "start state among Data / PLAINTEXT / RCDATA / RAWTEXT / script data (escaped, double escaped), last start tag, "
-                     "sink without Script answers and fuel, if feed + end() return normally and every machine the run visits is in one "
-                     "of 28 covered states (Data, PLAINTEXT, RCDATA, RAWTEXT, script data and their 17 less-than-sign / end-tag-open / "
-                     "end-tag-name / escape states) with no character reference pending, the formal WHATWG tokenizer stops with the "
-                     "same tokens (parse errors dropped, character data compared character by character, U+0000 its own token): a "
-                     "simulation relating the interpreter's CR/LF handling inside get_char to the standard's preprocessing pass, "
-                     "reconsume, temporary buffer, appropriate end tag, end-of-file clauses; obligations discharged per state by symbolic "
-                     "execution of both machines. NOT covered yet (runs reaching them are outside the theorem): tag open / tag name / "
-                     "attribute states, comments, DOCTYPE, CDATA sections, character references; script pauses.",
+                     "sink whose answers are state switches only (no Script, no EncodingIndicator) and fuel, if feed + end() return "
+                     "normally and every machine the run visits is in one of 32 covered states (Data, PLAINTEXT, RCDATA, RAWTEXT, script "
+                     "data and their 17 less-than-sign / end-tag-open / end-tag-name / escape states, tag open, end tag open, tag name, "
+                     "self-closing start tag) with no character reference pending, the formal WHATWG tokenizer stops with the "
+                     "same tokens (parse errors dropped, character data compared character by character, U+0000 its own token; start "
+                     "tags switch both tokenizers as the sink answers): a simulation relating the interpreter's CR/LF handling inside "
+                     "get_char to the standard's preprocessing pass, reconsume, temporary buffer, appropriate end tag, end-of-file "
+                     "clauses; obligations discharged per state by symbolic execution of both machines. NOT covered (runs reaching them "
+                     "are outside the theorem): the 8 attribute states, bogus comment, markup declaration open, the comment states, the "
+                     "DOCTYPE states, CDATA sections, character references; script pauses and encoding suspensions.",
                 note=TOK_NOTE + " The golden table is an audited snapshot, not an independent transcription.",
                 tech="source-to-Coq translation + reflective Coq checks + golden-table differential + independent WHATWG tokenizer oracle"),
     "C03": dict(cat="proof", ref="DESIGN.md section 5 C03",
